@@ -26,7 +26,7 @@ def codeTok (c : Loc) : String := locTok (Location.ofCode c)
 
 /-- rewrite the item tokens with marks into the `@<code>` / `!<ua>@<code>` tokens of `PumpDrv.parseItems`,
 applying the model's conversions; `none` = a conversion panics or a mark does not parse -/
-def rewriteItems : List String → Option (List String)
+def rewriteItems (input : Option (List Char)) : List String → Option (List String)
   | [] => some []
   | t :: rest =>
     let t' : Option String :=
@@ -35,7 +35,7 @@ def rewriteItems : List String → Option (List String)
         | [s, e] =>
           match parseMark s, parseMark e with
           | some s, some e =>
-            match locationFromSpan s e with
+            match locationFromSpanIn input s e with
             | .ok l => some s!"@{l.code}"
             | .panic _ => none
           | _, _ => none
@@ -43,12 +43,12 @@ def rewriteItems : List String → Option (List String)
       else if t.startsWith "!" then
         match (t.drop 3).toString |> parseMark with
         | some m =>
-          match fromScanError m with
+          match fromScanErrorIn input m with
           | .ok l => some s!"{t.take 2}@{l.code}"
           | .panic _ => none
         | none => none
       else some t
-    match t', rewriteItems rest with
+    match t', rewriteItems input rest with
     | some a, some r => some (a :: r)
     | _, _ => none
 
@@ -84,6 +84,9 @@ def errTok (e : DErr) : String :=
   if E2E.serdeHookKinds.contains e.kind then s!"err {e.kind} {codeTok 0} {codeTok 0}"
   else s!"err {e.kind} {codeTok e.loc} {codeTok e.loc2}"
 
+/-- `-` = no in-memory input (reader), otherwise the hex text -/
+def optText (t : String) : Option (List Char) := if t == "-" then none else tokChars t
+
 def handle : List String → String
   | "pos" :: _cls :: text :: idx =>
     match tokChars text with
@@ -97,17 +100,17 @@ def handle : List String → String
     match tokChars text with
     | none => "bad-op"
     | some t => let p := streamEndMark t; s!"{p.index}.{p.line}.{p.col}.{p.byte}"
-  | ["conv", s, e] =>
+  | ["conv", text, s, e] =>
     match parseMark s, parseMark e with
     | some s, some e =>
-      match locationFromSpan s e with
+      match locationFromSpanIn (optText text) s e with
       | .ok l => locTok l
       | .panic _ => "panic"
     | _, _ => "bad-op"
-  | ["scanerr", ua, m] =>
+  | ["scanerr", ua, text, m] =>
     match parseMark m with
     | some m =>
-      match fromScanError m with
+      match fromScanErrorIn (optText text) m with
       | .ok l => (if ua == "1" then "UnknownAnchor " else "ExternalMessage ") ++ locTok l
       | .panic _ => "panic"
     | none => "bad-op"
@@ -118,8 +121,8 @@ def handle : List String → String
       match PumpDrv.parseBudget r with
       | some (bud, a :: b :: c :: r) =>
         match parseSTy r with
-        | some (sty, "|" :: itemToks) =>
-          match rewriteItems itemToks with
+        | some (sty, text :: "|" :: itemToks) =>
+          match rewriteItems (optText text) itemToks with
           | none => "panic"
           | some toks =>
             let (items, left) := PumpDrv.parseItems toks #[]
